@@ -3,6 +3,7 @@
   Property theorems (statements are not to be weakened; helper lemmas live in ZlProofs/Lemmas).
 -/
 import ZlProofs.Lemmas.Framework
+import ZlModel.Generated.Registry
 namespace Zl.C03
 open Zl
 
@@ -122,6 +123,15 @@ theorem before_ineffective_in (eff ineff : Time)
   rw [checkEffective_spec]
   refine ⟨h, Or.inr ?_⟩
   unfold Time.lt Time.addSec; simp; omega
+
+/-- **The only instants of a linted object that the framework looks at** — directly or through any module function it
+    calls (scope predicates, date helpers of package util) — **are the three window targets of the model**: a
+    certificate's `NotBefore`, a CRL's `ThisUpdate`, an OCSP response's `NextUpdate`. No `NotAfter`, no embedded SCT
+    timestamp, no `ProducedAt` enters the window decision. (The other fields are those of the scope gate.)
+    Regenerated from the source on every run. -/
+theorem framework_reads_only_window_targets :
+    Generated.frameworkObjReadsAll = ["Certificate.EmailAddresses", "Certificate.ExtKeyUsage", "Certificate.NotBefore", "Certificate.OtherNames",
+      "Certificate.PolicyIdentifiers", "Certificate.UnknownExtKeyUsage", "Response.NextUpdate", "RevocationList.ThisUpdate"] := by decide
 
 /-- non-vacuity: a concrete lint, object dated exactly at the effective date, judged by the body -/
 def exLint : Lint Unit Unit := { md := { name := "e_x", eff := ⟨100, 0⟩, ineff := ⟨200, 0⟩ }, configure := fun _ => .ok none, applies := fun _ => .ok true, body := fun _ => .res Status.error "d" }
